@@ -104,15 +104,16 @@ func intersect(a, b factSet) factSet {
 // ---------------------------------------------------------------------------
 
 type Engine struct {
-	w        *World
-	fx       map[*ssa.Function]*fnCtx
-	sums     map[*ssa.Function]*predSummary
-	sumBusy  map[*ssa.Function]bool
-	singleSt map[*ssa.Alloc]int // number of stores to a local cell (including in closures)
-	accCache map[*ssa.Function][]accessorCase
-	nnField  map[*types.Var]bool
-	sites    map[*ssa.Function][]ssa.CallInstruction
-	escaped  map[*ssa.Function]bool
+	w         *World
+	fx        map[*ssa.Function]*fnCtx
+	sums      map[*ssa.Function]*predSummary
+	sumBusy   map[*ssa.Function]bool
+	singleSt  map[*ssa.Alloc]int // number of stores to a local cell (including in closures)
+	accCache  map[*ssa.Function][]accessorCase
+	nnField   map[*types.Var]bool
+	lockCache map[*ssa.Function]*lockInfo
+	sites     map[*ssa.Function][]ssa.CallInstruction
+	escaped   map[*ssa.Function]bool
 }
 
 type fnCtx struct {
@@ -1411,7 +1412,6 @@ func (e *Engine) nonNilFact(v ssa.Value, b *ssa.BasicBlock) bool {
 	}
 	return false
 }
-
 
 // nonNegField: every store to the struct field in the module writes a
 // non-negative constant or the field's own value plus a positive constant, so
